@@ -3,4 +3,5 @@ CONSTANTS
   Mode = "long"
   MaxLen = 4
   NTexts = 3
+  NestedDepths = {10, 100, 500}
 CHECK_DEADLOCK FALSE
